@@ -154,6 +154,58 @@ def different_types(ctx, db, aff, r, n):
                     ctx.violation("%s:different-types-raised-%s" % (tag, type(e).__name__), dict(case, op=nme, error=str(e)[:200]), replay=case)
 
 
+def same_unit_string_different_types(ctx, db, r, n):
+    """A derived Scalar whose composed unit string happens to equal a table symbol of another quantity type
+    ('m2' from m*m vs the area unit 'm2', 'm/s' from m / s vs the velocity unit): the unit strings are equal,
+    the quantity types are not - ordering must still raise TypeError, in both orders, all four operators."""
+    from barril.units import Scalar
+
+    from ..models import grammar
+
+    atoms = set(db.unit_to_unit_info)
+    rows = []
+    for sym, info in db.unit_to_unit_info.items():
+        p = grammar.parse_symbol(sym, atoms, info.name)
+        if not p or p == "ambiguous" or any(pre != 1.0 for pre, _a, _e in p):
+            continue
+        if len(p) == 1 and p[0][2] == 1:
+            continue
+        rows.append((sym, info.quantity_type, p))
+    r.shuffle(rows)
+    done = 0
+    for sym, qt, parts in rows:
+        if done >= n:
+            break
+        try:
+            acc = None
+            for _pre, atom, e in sorted(parts, key=lambda t: -t[2]):
+                x = Scalar(2.0, atom)
+                f = x ** abs(e) if abs(e) > 1 else x
+                if acc is None:
+                    acc = f if e > 0 else 1.0 / f
+                else:
+                    acc = acc * f if e > 0 else acc / f
+            t = Scalar(3.0, sym)
+        except Exception:
+            continue
+        if acc.GetUnit() != sym or acc.GetQuantityType() == t.GetQuantityType():
+            continue
+        done += 1
+        case = {"table_unit": sym, "table_quantity_type": qt, "derived_quantity_type": acc.GetQuantityType(), "derived_unit": acc.GetUnit()}
+        ctx.nt(("same-unit-string", sym))
+        for nme, op in OPS.items():
+            for lbl, a, b in (("derived,table", acc, t), ("table,derived", t, acc)):
+                ctx.ev()
+                try:
+                    res = op(a, b)
+                    ctx.violation("Scalar:same-unit-string-different-types-returned", dict(case, op=nme, order=lbl, returned=repr(res)), replay=case)
+                except TypeError:
+                    pass
+                except Exception as e:
+                    ctx.violation("Scalar:same-unit-string-different-types-raised-%s" % type(e).__name__, dict(case, op=nme, order=lbl, error=str(e)[:200]), replay=case)
+    ctx.count("derived-vs-table pairs with equal unit strings", done)
+
+
 # ------------------------------------------------------------------------------- equality
 def equality_pool(r):
     import numpy as np
@@ -184,6 +236,12 @@ def equality_pool(r):
         "Curve": Curve(Array([1.0, 2.0], u1), Array([3.0, 4.0], o1 if o1 != u1 else o2)), "Curve(same)": Curve(Array([1.0, 2.0], u1), Array([3.0, 4.0], o1 if o1 != u1 else o2)),
         "Curve[nd]": Curve(Array(np.array([1.0, 2.0]), u1), Array(np.array([3.0, 4.0]), o1 if o1 != u1 else o2)), "Curve(3)": Curve(Array([1.0, 2.0, 3.0], u1), Array([3.0, 4.0, 5.0], u1)),
         "UnitSystem": UnitSystem("a", "A", {"length": "m"}), "UnitSystem(same)": UnitSystem("a", "A", {"length": "m"}), "UnitSystem(other)": UnitSystem("b", "B", {"length": "cm"}),
+        "UnitSystem(superset mapping)": UnitSystem("a", "A", {"length": "m", "time": "s"}), "UnitSystem(empty mapping)": UnitSystem("a", "A", {}), "UnitSystem(other unit)": UnitSystem("a", "A", {"length": "cm"}),
+        "UnitSystem(read only)": UnitSystem("a", "A", {"length": "m"}, True), "UnitSystem(other caption)": UnitSystem("a", "B", {"length": "m"}),
+        "Curve(other domain)": Curve(Array([1.0, 2.0], u1), Array([3.0, 5.0], o1 if o1 != u1 else o2)), "Curve(image prefix)": Curve(Array([1.0], u1), Array([3.0], o1 if o1 != u1 else o2)),
+        "Array(prefix)": Array([1.0], u1), "Array(other category)": Array("depth" if u1 in ("m", "cm") else None, [1.0, 2.0], u1) if u1 in ("m", "cm") else Array([1.0, 2.0, 9.0], u1),
+        "FixedArray(other values)": FixedArray(2, [1.0, 3.0], u1), "Scalar(other category)": Scalar("depth", v, u1) if u1 in ("m", "cm") else Scalar(v + 2, u1),
+        "FractionScalar(other fraction)": FractionScalar(FractionValue(1, (1, 4)), u1), "FractionValue(other number)": FractionValue(2, (1, 2)), "Fraction(-1/2)": Fraction(-1, 2),
         "None": None, "str": "x", "int": 1, "float": 0.5, "tuple": (1, 2), "list": [1.0, 2.0], "dict": {"a": 1}, "object": object(), "bool": True, "int0": 0, "float1.5": 1.5,
     }  # fmt: skip
     return objs
@@ -257,6 +315,8 @@ def run(ctx):
         aff = conv.describe(db)
         order_sweep(ctx, db, aff, r)
         different_types(ctx, db, aff, r, 60 if ctx.tier == "quick" else 600)
+        if ctx.shard == 0:
+            same_unit_string_different_types(ctx, db, ctx.rng("sameunit"), 60 if ctx.tier == "quick" else 2000)
         n = 0
         for rep in range(3 if ctx.tier == "quick" else 12):
             n += equality_sweep(ctx, ctx.rng("pool%d" % rep))
